@@ -214,6 +214,7 @@ func initDesignateNotaryRoleAsLeaderTick(ctx context.Context, prm enableNotaryPr
 		tx = nil
 		clear(mCommitteeIndexToSignature)
 		txFullySigned = false
+		triedDesignateRoleTx = false
 		setDomainRecordTxMonitor.reset()
 		designateRoleTxMonitor.reset()
 	}
@@ -460,7 +461,7 @@ func initDesignateNotaryRoleAsLeaderTick(ctx context.Context, prm enableNotaryPr
 
 		prm.logger.Info("gathered enough signatures of the transaction designating Notary role to the committee")
 
-		if registerDomainTxMonitor.isPending() {
+		if designateRoleTxMonitor.isPending() {
 			prm.logger.Info("previously sent transaction designating Notary role to the committee is still pending, will wait for the outcome")
 			return
 		} else if triedDesignateRoleTx {
